@@ -61,6 +61,9 @@ func main() {
 		die(2, "usage: verifcheck <ID> quick|thorough | <ID> --replay <file>")
 	}
 	id := os.Args[1]
+	if id == "ALL" {
+		os.Exit(runAll(os.Args[2]))
+	}
 	p, ok := props[id]
 	if !ok {
 		die(2, "unknown property %q", id)
@@ -198,19 +201,52 @@ func build(p *prop, work string, tier string) (bins map[string]string, ok bool) 
 	return bins, good
 }
 
+// runAll builds everything once and runs every property's check (development aid: mutation runs).
+func runAll(tier string) int {
+	if tier != "quick" && tier != "thorough" {
+		die(2, "tier must be quick or thorough")
+	}
+	work := mkWork("ALL")
+	defer os.RemoveAll(work)
+	union := &prop{id: "ALL", jobs: []job{{race: true, tool: true, fuzz: "x"}}}
+	bins, ok := build(union, work, tier)
+	if !ok {
+		return 2
+	}
+	var ids []string
+	for id := range props {
+		ids = append(ids, id)
+	}
+	sort.Strings(ids)
+	worst := 0
+	for _, id := range ids {
+		p := props[id]
+		p.id = id
+		rc := runWith(p, tier, work, bins)
+		if rc == 1 || (rc == 2 && worst == 0) {
+			worst = rc
+		}
+		fmt.Printf("RESULT property=%s rc=%d\n", id, rc)
+	}
+	return worst
+}
+
 func run(p *prop, tier string) int {
-	start := time.Now()
-	seed := seedValue()
 	work := mkWork(p.id)
 	defer os.RemoveAll(work)
-	evidencePath := filepath.Join(evidenceDir(), p.id+".json")
-	os.MkdirAll(filepath.Dir(evidencePath), 0o755)
-
 	bins, ok := build(p, work, tier)
 	if !ok {
 		os.RemoveAll(work)
 		return 2
 	}
+	return runWith(p, tier, work, bins)
+}
+
+func runWith(p *prop, tier string, work string, bins map[string]string) int {
+	start := time.Now()
+	seed := seedValue()
+	evidencePath := filepath.Join(evidenceDir(), p.id+".json")
+	os.MkdirAll(filepath.Dir(evidencePath), 0o755)
 
 	ti := 0
 	if tier == "thorough" {
@@ -334,6 +370,11 @@ func run(p *prop, tier string) int {
 		if err := os.WriteFile(tmp, append(b, '\n'), 0o644); err == nil {
 			os.Rename(tmp, evidencePath)
 		}
+		// a copy per tier, so that a quick run does not erase what the last thorough run covered
+		tierDir := filepath.Join(evidenceDir(), "by-tier")
+		if os.MkdirAll(tierDir, 0o755) == nil {
+			os.WriteFile(filepath.Join(tierDir, p.id+"."+tier+".json"), append(b, '\n'), 0o644)
+		}
 	}
 	for sig := range known {
 		fmt.Printf("KNOWN-FINDING: property=%s %s\n", p.id, knownLine(sig))
@@ -399,7 +440,7 @@ func runUnit(ctx context.Context, p *prop, j *job, shard, ti int, tier string, s
 			jobIdx = i
 		}
 	}
-	dir := filepath.Join(work, fmt.Sprintf("j%d-s%d", jobIdx, shard))
+	dir := filepath.Join(work, fmt.Sprintf("%s-j%d-s%d", p.id, jobIdx, shard))
 	os.MkdirAll(dir, 0o755)
 	bin := bins["props"] // the parent is never the race build; children are (VERIF_SELF_RACE)
 	nshards := j.shards[ti]
